@@ -40,6 +40,9 @@ def gen_cases(tier):
                     for tap in ((0, 1) if el != "line" else (0,)):
                         cases.append({"el": el, "type": name, "op": "change", "other": o, "tap": tap})
             cases.append({"el": el, "type": name, "op": "pfst"})
+            # the same type through the plural create function
+            for tap in ((0, 1) if el != "line" else (0,)):
+                cases.append({"el": el, "type": name, "op": "create", "tap": tap, "batch": True})
     for el in ELS:
         names = st.all_types(el)
         builtin = [n for n in names if not st.is_generated(n)]
@@ -54,6 +57,17 @@ def gen_cases(tier):
                             cases.append({"el": el, "op": "seq", "old": old, "type": new, "how": how, "tap": tap})
         for name in (names if tier == "thorough" else pool):
             cases.append({"el": el, "op": "seq", "old": name, "type": name, "how": "edit", "tap": 1 if el != "line" else 0})
+    # mixed std-type lists in one create_lines call: with / without optional parameters, every order
+    lnames = st.all_types("line")
+    lb = [n for n in lnames if not st.is_generated(n)]
+    lpool = [FULL["line"], MINI["line"], lb[0], SEQ_EXTRA["line"], "GEN_line_zero_only", "GEN_line_alpha"]
+    if tier == "thorough":
+        lpool += [lb[-1], "GEN_line_endtemp"]
+    for a in lpool:
+        for b in lpool:
+            cases.append({"el": "line", "op": "create_lines", "types": [a, b], "type": b})
+            if a != b:
+                cases.append({"el": "line", "op": "create_lines", "types": [a, a, b], "type": b})
     for el in ELS + ["fuse", "line_dc"]:
         for name in st.all_types(el) if el != "line_dc" else sorted(st.base_net().std_types["line_dc"]):
             cases.append({"el": el, "type": name, "op": "store"})
@@ -73,6 +87,9 @@ def _explain_row(case, net, param, rv, tv):
     """exact predicates for recorded defects"""
     el, op = case["el"], case["op"]
     out = []
+    if case.get("batch") and el == "trafo" and (param.startswith("tap") or param == "shift_degree") and \
+            (rv is None or (param == "shift_degree" and rv == 0.0)):
+        out.append("explained=transformers_std_param_not_copied")
     if rv is None and param not in net[el].columns:
         if op == "change":
             out.append("explained=change_std_type_skips_missing_columns")
@@ -140,8 +157,11 @@ def _case_create(case, out):
     tp = st.tap_pos_for(data, case["tap"])
     if case["tap"] != 0 and tp is None:
         return None
+    batch = bool(case.get("batch"))
+    if batch and tp is None and "tap_neutral" in data:
+        tp = data["tap_neutral"]
     params = st.type_params(el, data)
-    net_t = st.BUILD[el](st.create_from_type(el, name, tp))(data)
+    net_t = st.BUILD[el](st.create_from_type(el, name, tp, batch=batch))(data)
     net_r = st.BUILD[el](st.create_from_params(el, params, tp))(data)
     row = net_t[el].iloc[0]
     out["n"] += 1
@@ -206,6 +226,34 @@ def _case_change(case, out):
     pp.change_std_type(net_t, net_t[el].index[0], name, element=el)
     sigs = _judge_change(case, net_t, before, data, name, tp, out, other)
     return "|".join(sigs)
+
+
+def _case_create_lines(case, out):
+    """one create_lines call with a LIST of std types (parallel lines between the same buses)"""
+    el = "line"
+    lib = st.base_net().std_types[el]
+    datas = [lib[t] for t in case["types"]]
+    env = dict(datas[0], max_i_ka=min(d["max_i_ka"] for d in datas))
+
+    def create_t(net, b0, b1, length):
+        pp.create_lines(net, [b0] * len(datas), [b1] * len(datas), length, list(case["types"]))
+
+    def create_r(net, b0, b1, length):
+        for d in datas:
+            pp.create_line_from_parameters(net, b0, b1, length, **st.type_params(el, d))
+    net_t, net_r = st.BUILD[el](create_t)(env), st.BUILD[el](create_r)(env)
+    missing = []
+    out["n"] += 1
+    for i, (t, d) in enumerate(zip(case["types"], datas)):
+        for p, rv, tv in st.row_mismatches(el, net_t[el].iloc[i], st.type_params(el, d)):
+            ex = _explain_row(dict(case, op="create"), net_t, p, rv, tv)
+            missing.append((p, rv, d[p], ex))
+            out["violations"].append(core.violation(
+                "parameter_in_row", {"param": p, "row": rv, "type": tv, "position": i, "std_type": t},
+                tokens=_tokens(case, "param=" + p, "pos=%d" % i) + ex, klass="line:create_lines:%s" % p))
+    # behaviour (the explanation-by-patching of _behaviour only handles one row: no tokens for multi-row gaps)
+    sigs = _behaviour(case, net_t, net_r, out, env, ())
+    return "lines|" + "|".join(sigs)
 
 
 SEQ_NAME = "SEQ_type"
@@ -487,7 +535,7 @@ def _case_fuse(case, out):
     return "fuse"
 
 
-_OPS = {"create": _case_create, "change": _case_change, "seq": _case_seq, "store": _case_store, "copy": _case_copy, "pfst": _case_pfst,
+_OPS = {"create": _case_create, "create_lines": _case_create_lines, "change": _case_change, "seq": _case_seq, "store": _case_store, "copy": _case_copy, "pfst": _case_pfst,
         "fuse": _case_fuse}
 
 
